@@ -465,6 +465,40 @@ theorem runF_identity {id key : Nat} {s : St β} (hi : Identity id key s) (hist 
     | stop => simp only [runF]; exact ih (step_identity H hi _)
     | wipe k => simp only [runF]; exact ih (step_identity H hi _)
 
+theorem startF_controllers {id key : Nat} {s : St β} (hi : Identity id key s) (c : StartCfg) (f : Faults) :
+    controllers id (startF H s c f).1.store.entities = controllers id s.store.entities := by
+  rw [startF_identity H hi c f]
+  split
+  · exact step_controllers H hi (.start c)
+  · rfl
+
+theorem runF_controllers {id key : Nat} {s : St β} (hi : Identity id key s) (hist : List (Step × Faults)) :
+    controllers id (runF H s hist).store.entities
+      = (hist.map (·.1)).foldl (ctlOp id) (controllers id s.store.entities) := by
+  induction hist generalizing s with
+  | nil => rfl
+  | cons x xs ih =>
+    obtain ⟨st, f⟩ := x
+    cases st with
+    | start c =>
+      simp only [runF, List.map_cons, List.foldl_cons]
+      rw [ih (startF_keeps_identity H hi c f), startF_controllers H hi c f]; rfl
+    | pair n k =>
+      simp only [runF, List.map_cons, List.foldl_cons]
+      rw [ih (step_identity H hi _), step_controllers H hi _]
+    | unpair n =>
+      simp only [runF, List.map_cons, List.foldl_cons]
+      rw [ih (step_identity H hi _), step_controllers H hi _]
+    | setValue p v =>
+      simp only [runF, List.map_cons, List.foldl_cons]
+      rw [ih (step_identity H hi _), step_controllers H hi _]
+    | stop =>
+      simp only [runF, List.map_cons, List.foldl_cons]
+      rw [ih (step_identity H hi _), step_controllers H hi _]
+    | wipe k =>
+      simp only [runF, List.map_cons, List.foldl_cons]
+      rw [ih (step_identity H hi _), step_controllers H hi _]
+
 theorem bump_ge (o : Option β) (h : β) (v : Nat) : v ≤ bump o h v := by
   unfold bump; split
   · split <;> omega
